@@ -92,3 +92,66 @@ Definition rule_reads (form : Z) (c : desc) (idx n : Z) : list read :=
   | _ => reads_quotient c idx n
   end.
 
+
+(* ---------------------------------------------------------------- the three derived rule forms
+   (strategies/rule.py: EquivalenceRule, EquivalencePathRule).  Each has exactly ONE child, is
+   built on the strategy object of the rule it comes from and INHERITS AbstractRule.shifts, i.e.
+   declares  strategy.shifts(comb_class, (the one child,)):  the strategy is asked about a
+   (class, children) pair that its decomposition function may never have produced.
+
+   form 4: EquivalenceRule(rule), rule a DisjointUnionStrategy rule with one non-empty child;
+           children = (that child,); constructor DisjointUnion(parent, (child,), ..)
+   form 5: EquivalenceRule(ReverseRule(rule, child_idx))  (= form 4 .to_reverse_rule(0));
+           comb_class = the non-empty child, children = (the ORIGINAL parent,);
+           constructor Complement(original parent, (child,), 0, ..): one provider, no sibling
+   form 6: EquivalencePathRule(rules): strategy and comb_class of rules[0], children =
+           rules[-1].children = (the last class,); constructor DisjointUnion(first, (last,), ..)
+
+   strat says which shifts method the inherited strategy object has: 0 a DisjointUnionStrategy,
+   anything else a CartesianProductStrategy.  d = (minimum size, is_atom) of the ONE class handed
+   to strategy.shifts (form 4 the non-empty child, 5 the original parent, 6 the last class).
+   The declared shifts go through the GENERATED shift functions on the one-element list [d];
+   the reads through the constructor reads above on [d].  For a CartesianProductStrategy the
+   constructor property of these forms raises NotImplementedError, so get_terms reads nothing
+   at all: there the reads below are an upper bound and only the declared shifts are compared
+   with the implementation. *)
+Definition derived_shifts (strat : Z) (d : Z * bool) : list Z :=
+  if strat =? 0 then union_shifts [d] else product_shifts [d].
+
+Definition derived_reads (form : Z) (d : Z * bool) (n : Z) : list read :=
+  match form with
+  | 5 => reads_complement [d] 0 n
+  | _ => reads_union [d] n
+  end.
+
+(* ---------------------------------------------------------------- every form, 0..6
+   a rule as the theorems see it: a plain or reversed rule (forms 0..3, descriptors of the
+   ORIGINAL rule's children, idx for the reversed ones) or a derived one (forms 4..6) *)
+Inductive rule_desc : Type :=
+  | PlainRule (form : Z) (c : desc) (idx : Z)
+  | DerivedRule (form strat : Z) (d : Z * bool).
+
+Definition rd_wf (r : rule_desc) : Prop :=
+  match r with
+  | PlainRule form c idx => 0 <= form <= 3 /\ (2 <= form -> 0 <= idx < zlen c)
+  | DerivedRule form _ _ => 4 <= form <= 6
+  end.
+
+(* number of children of the rule being counted *)
+Definition rd_nchildren (r : rule_desc) : Z :=
+  match r with
+  | PlainRule _ c _ => zlen c
+  | DerivedRule _ _ _ => 1
+  end.
+
+Definition rd_shifts (r : rule_desc) : list Z :=
+  match r with
+  | PlainRule form c idx => rule_shifts form c idx
+  | DerivedRule _ strat d => derived_shifts strat d
+  end.
+
+Definition rd_reads (r : rule_desc) (n : Z) : list read :=
+  match r with
+  | PlainRule form c idx => rule_reads form c idx n
+  | DerivedRule form _ d => derived_reads form d n
+  end.
